@@ -381,4 +381,86 @@ Fixpoint wf_tptp (f : formula) : bool :=
   | FQ _ vs g => negb (Nat.eqb (List.length vs) 0) && forallb (fun v => is_upper_word (vname v)) vs && wf_tptp g
   end.
 
-(* EXTRACT: tptp_print tptp_format tff_of_formula tff_read print_formula read_formula wf_tptp tff_of_var *)
+(* ---------- the two halves of [wf_tptp], separately ----------
+   READING the printed tokens back needs only the LEXICAL half: words of the right class, no empty
+   comparison, no empty quantifier block ([wf_lex]; Proofs/TptpRead.v).  The symbolic constants
+   `a_s`, `n_i`, `p__s` are lower words: the reader reads them as constants. *)
+Definition sterm_lex (t : sterm) : bool :=
+  match t with SSym s => is_lower_word s | SFun c => is_lower_word c | SVar x => is_upper_word x end.
+Definition gterm_lex (t : gterm) : bool :=
+  match t with
+  | GInf | GSup => true
+  | GFun c => is_lower_word c
+  | GVar x => is_upper_word x
+  | GInt a => iterm_ok a
+  | GSym a => sterm_lex a
+  end.
+Definition aformula_lex (a : aformula) : bool :=
+  match a with
+  | ATrue | AFalse => true
+  | AAtom p ts => is_lower_word p && forallb gterm_lex ts
+  | ACmp t gs => gterm_lex t && negb (Nat.eqb (List.length gs) 0) && forallb (fun g => gterm_lex (gterm_of g)) gs
+  end.
+Fixpoint wf_lex (f : formula) : bool :=
+  match f with
+  | FAtomic a => aformula_lex a
+  | FNot g => wf_lex g
+  | FBin _ l r => wf_lex l && wf_lex r
+  | FQ _ vs g => negb (Nat.eqb (List.length vs) 0) && forallb (fun v => is_upper_word (vname v)) vs && wf_lex g
+  end.
+
+(* The MEANING of the reading needs only that the names are interpreted as intended under the
+   constant signature K of the problem the formula is printed in ([names_in K]; Proofs/TptpSem.v):
+   - a symbolic constant s is declared a symbolic constant (or, when K has no entry for it, does
+     not look like a placeholder) and is not c__infimum__/c__supremum__;
+   - a placeholder c of sort so: the identifier c<suffix so> is declared as that placeholder (or
+     has no entry);
+   - a predicate is not one of the preamble's / the $int signature's predicates.
+   With K = [] this is the name half of [wf_tptp]. *)
+Section NamesIn.
+Variable K : csig.
+Definition sym_in (s : string) : bool :=
+  negb (String.eqb s "c__infimum__") && negb (String.eqb s "c__supremum__")
+  && match clookup K s with
+     | Some CSelf => true
+     | Some (CPlace _ _) => false
+     | None => match decode s with None => true | Some _ => false end
+     end.
+Definition place_in (c : string) (so : sort) : bool :=
+  match clookup K (c ++ suffix so) with
+  | Some (CPlace c' so') => String.eqb c' c && sort_eqb so' so
+  | Some CSelf => false
+  | None => true
+  end.
+Fixpoint iterm_in (t : iterm) : bool :=
+  match t with
+  | INum _ | IVar _ => true
+  | IFun c => place_in c SInteger
+  | IUn _ a => iterm_in a
+  | IBin _ l r => iterm_in l && iterm_in r
+  end.
+Definition sterm_in (t : sterm) : bool :=
+  match t with SSym s => sym_in s | SFun c => place_in c SSymbol | SVar _ => true end.
+Definition gterm_in (t : gterm) : bool :=
+  match t with
+  | GInf | GSup | GVar _ => true
+  | GFun c => place_in c SGeneral
+  | GInt a => iterm_in a
+  | GSym a => sterm_in a
+  end.
+Definition aformula_in (a : aformula) : bool :=
+  match a with
+  | ATrue | AFalse => true
+  | AAtom p ts => negb (is_reserved_pred p) && forallb gterm_in ts
+  | ACmp t gs => gterm_in t && forallb (fun g => gterm_in (gterm_of g)) gs
+  end.
+Fixpoint names_in (f : formula) : bool :=
+  match f with
+  | FAtomic a => aformula_in a
+  | FNot g => names_in g
+  | FBin _ l r => names_in l && names_in r
+  | FQ _ _ g => names_in g
+  end.
+End NamesIn.
+
+(* EXTRACT: tptp_print tptp_format tff_of_formula tff_read print_formula read_formula wf_tptp tff_of_var wf_lex names_in *)
